@@ -76,11 +76,19 @@ void *mremap_wrapper(void *old_address __attribute__((__unused__)),
 /* Sleep delay in ms */
 #define RCU_SLEEP_DELAY_MS	10
 #define INIT_READER_COUNT	8
+#if defined(URCU_VERIF) && defined(URCU_VERIF_INIT_READER_COUNT)
+#undef INIT_READER_COUNT
+#define INIT_READER_COUNT URCU_VERIF_INIT_READER_COUNT
+#endif
 
 /*
  * Active attempts to check for reader Q.S. before calling sleep().
  */
 #define RCU_QS_ACTIVE_ATTEMPTS 100
+#if defined(URCU_VERIF) && defined(URCU_VERIF_RCU_QS_ACTIVE_ATTEMPTS)
+#undef RCU_QS_ACTIVE_ATTEMPTS
+#define RCU_QS_ACTIVE_ATTEMPTS URCU_VERIF_RCU_QS_ACTIVE_ATTEMPTS
+#endif
 
 static
 int urcu_bp_refcount;
